@@ -830,7 +830,7 @@ def emit_func(f):
             elif op == 'bitcast':
                 ft = resolve(I.fty); tt = resolve(I.ty)
                 if isinstance(ft, PtrTy) and isinstance(tt, PtrTy): out.append('  %s = %s;' % (d, V(I.fty, I.a)))
-                else: out.append('  { %s t_ = %s; __builtin_memcpy(&%s, &t_, sizeof(t_)); }' % (cty(I.fty), V(I.fty, I.a), d))
+                else: out.append('  { union { %s a_; %s b_; } u_; u_.a_ = %s; %s = u_.b_; }' % (cty(I.fty), cty(I.ty), V(I.fty, I.a), d))  # union pun: __builtin_memcpy has no body under CBMC
             elif op == 'freeze':
                 out.append('  %s = %s;' % (d, V(I.ty, I.a)))
             elif op == 'select':
@@ -838,9 +838,18 @@ def emit_func(f):
             elif op == 'alloca':
                 out.append('  %s = (ptr_t)%s_mem;' % (d, d))
             elif op == 'load':
-                out.append('  %s = %s;' % (d, mask(I.ty, '*(%s*)%s' % (cty(I.ty), V(*I.p)))))
+                lt = resolve(I.ty)
+                if isinstance(lt, IntTy) and lt.bits > 8 and lt.bits % 8 == 0 and lt.bits not in (16, 32, 64, 128):
+                    # iN with a store size that is not a power of two (i24, i40, ...): access exactly N/8 bytes (little endian)
+                    out.append('  { u8* p_ = (u8*)%s; %s = %s; }' % (V(*I.p), d, ' | '.join('((%s)p_[%d] << %d)' % (cty(I.ty), k, 8 * k) for k in range(lt.bits // 8))))
+                else:
+                    out.append('  %s = %s;' % (d, mask(I.ty, '*(%s*)%s' % (cty(I.ty), V(*I.p)))))
             elif op == 'store':
-                out.append('  *(%s*)%s = %s;' % (cty(I.v[0]), V(*I.p), V(*I.v)))
+                st = resolve(I.v[0])
+                if isinstance(st, IntTy) and st.bits > 8 and st.bits % 8 == 0 and st.bits not in (16, 32, 64, 128):
+                    out.append('  { %s t_ = %s; u8* p_ = (u8*)%s; %s }' % (cty(I.v[0]), V(*I.v), V(*I.p), ' '.join('p_[%d] = (u8)(t_ >> %d);' % (k, 8 * k) for k in range(st.bits // 8))))
+                else:
+                    out.append('  *(%s*)%s = %s;' % (cty(I.v[0]), V(*I.p), V(*I.v)))
             elif op == 'getelementptr':
                 e = V(*I.base)
                 t = I.sty; first = True; terms = []; coff = 0
